@@ -51,8 +51,10 @@ class SerBranch:
     line: int
 
 
-def _test_names(test: ast.AST, candidates: list[str]) -> Optional[list[str]]:
-    """Which candidate call names satisfy a test over ``call.name``? None if the test is not about call.name."""
+def _test_names(test: ast.AST, candidates: list[str], fold=None) -> Optional[list[str]]:
+    """Which candidate call names satisfy a test over ``call.name``? None if the test is not about call.name.
+
+    ``fold`` evaluates a non-literal container (a module-level table) to a python value, or None."""
     if isinstance(test, ast.Compare) and len(test.ops) == 1:
         l, op, r = test.left, test.ops[0], test.comparators[0]
         if norm(l) == "call.name" and isinstance(r, ast.Constant):
@@ -64,12 +66,14 @@ def _test_names(test: ast.AST, candidates: list[str]) -> Optional[list[str]]:
             try:
                 vals = ast.literal_eval(r)
             except Exception:
-                return None
+                vals = fold(r) if fold is not None else None
+                if not isinstance(vals, (tuple, list, set, frozenset, dict)):
+                    return None
             return [c for c in candidates if (c in vals) == isinstance(op, ast.In)]
         if isinstance(l, ast.Constant) and norm(r) == "call.name" and isinstance(op, ast.In):
             return [c for c in candidates if l.value in c]
     if isinstance(test, ast.BoolOp):
-        parts = [_test_names(v, candidates) for v in test.values]
+        parts = [_test_names(v, candidates, fold) for v in test.values]
         if any(p is None for p in parts):
             return None
         if isinstance(test.op, ast.Or):
@@ -110,7 +114,7 @@ class SerializerExtractor:
             raise AnalysisError("anchor: serializer loop body is not an if/elif chain over call.name")
         cur: Optional[ast.If] = st
         while cur is not None:
-            names = _test_names(cur.test, remaining)
+            names = _test_names(cur.test, remaining, lambda e: self._const(e, None, {}))
             if names is None:
                 raise AnalysisError(f"serializer branch test not understood: {norm(cur.test)}")
             br = self._branch(cur.body, names, cur.lineno)
@@ -138,17 +142,52 @@ class SerializerExtractor:
             self._exec(body, nm, env, br, certain=True)
         return br
 
-    def _str_tuple(self, e: ast.AST) -> Optional[tuple]:
-        """A literal tuple of strings, or a module constant holding one."""
-        if isinstance(e, ast.Tuple):
-            return tuple(x.value for x in e.elts if isinstance(x, ast.Constant))
+    _NOCONST = object()
+
+    def _const(self, e: ast.AST, nm: Optional[str], cenv: dict) -> Any:
+        """Partial evaluation of an expression of a branch specialised to call name ``nm``: literals, module
+        constants, locals bound to such values earlier in the branch (``cenv``), ``call.name`` itself, and
+        subscripts / tuples of those.  None when the value is not a compile-time constant."""
+        v = self._const_(e, nm, cenv)
+        return None if v is self._NOCONST else v
+
+    def _const_(self, e: ast.AST, nm: Optional[str], cenv: dict) -> Any:
+        N = self._NOCONST
+        if isinstance(e, ast.Constant):
+            return e.value
         if isinstance(e, ast.Name):
+            if e.id in cenv:
+                return cenv[e.id]
             m = self.f.module
             node = m.assigns.get(e.id)
-            if node is not None:
-                v = self.E.P.fold_or_none(m, node)
-                if isinstance(v, (tuple, list)) and all(isinstance(x, str) for x in v):
-                    return tuple(v)
+            if node is not None and not any(isinstance(x, ast.Name) and x.id == e.id and isinstance(x.ctx, ast.Store) for x in ast.walk(self.f.node)):
+                try:
+                    return self.E.P.fold(m, node)
+                except Exception:
+                    return N
+            return N
+        if isinstance(e, ast.Attribute) and norm(e) == "call.name" and nm is not None:
+            return nm
+        if isinstance(e, ast.Tuple):
+            vs = [self._const_(x, nm, cenv) for x in e.elts]
+            return N if any(x is N for x in vs) else tuple(vs)
+        if isinstance(e, ast.Subscript):
+            b, k = self._const_(e.value, nm, cenv), self._const_(e.slice, nm, cenv)
+            if b is N or k is N:
+                return N
+            try:
+                return b[k]
+            except Exception:
+                return N
+        return N
+
+    def _str_tuple(self, e: ast.AST, nm: Optional[str] = None, cenv: Optional[dict] = None) -> Optional[tuple]:
+        """A tuple of strings known at analysis time: literal, module constant, or an entry of a module table."""
+        if isinstance(e, ast.Tuple) and all(isinstance(x, ast.Constant) for x in e.elts):
+            return tuple(x.value for x in e.elts)
+        v = self._const(e, nm, cenv or {})
+        if isinstance(v, (tuple, list)) and all(isinstance(x, str) for x in v):
+            return tuple(v)
         return None
 
     def _dictval(self, e: ast.AST, nm: str, env: dict, br: SerBranch) -> Optional[DictVal]:
@@ -166,13 +205,14 @@ class SerializerExtractor:
                         d.dynamic |= sub.dynamic
                 elif isinstance(k, ast.Constant):
                     d.keys[k.value] = "req"
-                    if k.value == "op" and isinstance(v, ast.Constant):
-                        d.ops = {v.value}
+                    opv = self._const(v, nm, env.get("__const__", {})) if k.value == "op" else None
+                    if isinstance(opv, str):
+                        d.ops = {opv}
             return d
         if isinstance(e, ast.Call):
             fd = dotted(e.func) or ""
-            if fd == "get_all_args" and e.args and self._str_tuple(e.args[0]) is not None:
-                tup = self._str_tuple(e.args[0])
+            if fd == "get_all_args" and e.args and self._str_tuple(e.args[0], nm, env.get("__const__", {})) is not None:
+                tup = self._str_tuple(e.args[0], nm, env.get("__const__", {}))
                 br.tuples[nm] = tup
                 return DictVal(keys={k: "req" for k in tup}, from_tuple=tup, method=nm)
             if fd == "remove_kwarg_if_default" and len(e.args) == 3:
@@ -197,9 +237,14 @@ class SerializerExtractor:
         return None
 
     def _exec(self, body: list[ast.stmt], nm: str, env: dict, br: SerBranch, certain: bool) -> None:
+        cenv = env.setdefault("__const__", {})
         for st in body:
             if isinstance(st, ast.If):
-                sel = _test_names(st.test, [nm])
+                sel = _test_names(st.test, [nm], lambda e: self._const(e, nm, cenv))
+                if sel is None:
+                    cv = self._const_(st.test, nm, cenv)
+                    if cv is not self._NOCONST:
+                        sel = [nm] if cv else []
                 if sel is not None:
                     if sel:
                         self._exec(st.body, nm, env, br, certain)
@@ -219,7 +264,19 @@ class SerializerExtractor:
                 val = st.value
                 if val is None:
                     continue
+                if isinstance(tgt, ast.Tuple) and all(isinstance(x, ast.Name) for x in tgt.elts):
+                    cv = self._const_(val, nm, cenv)
+                    for i, x in enumerate(tgt.elts):
+                        cenv.pop(x.id, None)
+                        if certain and cv is not self._NOCONST and isinstance(cv, (tuple, list)) and len(cv) == len(tgt.elts):
+                            cenv[x.id] = cv[i]
+                    continue
                 if isinstance(tgt, ast.Name):
+                    cenv.pop(tgt.id, None)
+                    cv = self._const_(val, nm, cenv)
+                    if certain and cv is not self._NOCONST and not isinstance(val, ast.Name):
+                        cenv[tgt.id] = cv
+                        continue
                     d = self._dictval(val, nm, env, br)
                     if d is not None:
                         env[tgt.id] = d.clone() if isinstance(val, ast.Name) else d
